@@ -236,7 +236,11 @@ func exec(e *lp.Exec) {
 			client = cl == 1
 			heads = nil
 			if len(f) > 4 {
-				heads = hx.ParseHeads(f[4])
+				// request context ("h=0110": which responses answer a HEAD request): known to the reference, which is
+				// told the request; nbhttp's client parser has no such input (known finding HTTP-CLIENT-HEAD)
+				for _, c := range strings.TrimPrefix(f[4], "h=") {
+					heads = append(heads, c == '1')
+				}
 			}
 			stream, bounds, nclass = nil, nil, ""
 			key.Reset()
@@ -276,7 +280,7 @@ func exec(e *lp.Exec) {
 				continue
 			}
 			// 1. nbio, fed in the given segmentation
-			a := hx.NewSess(client, maxBody, limit, heads...)
+			a := hx.NewSess(client, maxBody, limit)
 			errc := 0
 			var msgs []string
 			rest := stream
@@ -311,7 +315,7 @@ func exec(e *lp.Exec) {
 			}
 			e.P("> %s badurl=%s badproto=%s", line, strings.Join(a.R.BadURL, ","), strings.Join(a.R.BadProto, ","))
 			// 2. nbio again, one byte at a time: the offset at which each message completes
-			b := hx.NewSess(client, maxBody, limit, heads...)
+			b := hx.NewSess(client, maxBody, limit)
 			for i := range stream {
 				if r := b.Feed(stream[i : i+1]); r.Errc != 0 {
 					break
